@@ -462,8 +462,8 @@ def consistentIvs (S : List Iv) : Bool := S.all fun i => S.all fun j => i.name !
 
 /-- **the graph-and-query part of the class** (no domain enters):
 * one world: across ALL ancestral components a vertex is named by one counterfactual variable only;
-* every outcome is found in the components under its own name (`OutcomesFound`), the outcomes are over pairwise distinct
-  vertices (an outcome MAY share its vertex with a condition: in one world it is then redundant);
+* every outcome is found in the components under its own name (`OutcomesFound`), two outcomes over one vertex are the
+  same item (an outcome MAY share its vertex with a condition: in one world it is then redundant);
 * no query variable intervenes on itself, or twice on one vertex with different values;
 * no literal subscript of the query names a vertex of the components, unless it names a condition (a subscript that names
   a summed vertex would be captured by one of the two sums of line 4: the `literal_bound` finding). -/
@@ -473,7 +473,7 @@ def ctfTRLinkClass (g : MG Name) (o c : Ctf.Event) : Bool :=
   | .ok comps =>
     let T := comps.flatten
     (T.all fun a => T.all fun b => a.name != b.name || decide (a = b)) &&
-    OutcomesFound g o c && decide ((o.map (·.1.name)).Nodup) &&
+    OutcomesFound g o c && (o.all fun p => o.all fun q => p.1.name != q.1.name || decide (p = q)) &&
     (o ++ c).all (fun p => !Ctf.selfIntervened p.1 && consistentIvs p.1.ivs) &&
     (o ++ c).all (fun p => p.1.ivs.all fun i =>
       !(T.any fun a => a.name == i.name) || decide (i.name ∈ eventNames c))
@@ -506,7 +506,8 @@ def ctfTRClassFlags (g : MG Name) (domains : List Domain) (o c : Ctf.Event) : Li
   | .ok comps =>
     let T := comps.flatten
     [ (T.all fun a => T.all fun b => a.name != b.name || decide (a = b)),
-      OutcomesFound g o c, OutcomeNotCondition o c, decide ((o.map (·.1.name)).Nodup),
+      OutcomesFound g o c, OutcomeNotCondition o c,
+      (o.all fun p => o.all fun q => p.1.name != q.1.name || decide (p = q)),
       (o ++ c).all (fun p => !Ctf.selfIntervened p.1 && consistentIvs p.1.ivs),
       (o ++ c).all (fun p => p.1.ivs.all fun i =>
         !(T.any fun a => a.name == i.name) || decide (i.name ∈ eventNames c)),
